@@ -102,6 +102,7 @@ func (n *LocalNode) stabilize() error {
 
 	if modified && len(succList) > 0 && n.checkNodeState(true) == nil { // don't re-notify our successor when we are leaving
 		succ := succList[0]
+		verifhook.At("stn:notify", n.ID())
 		if err := succ.Notify(n); err != nil {
 			n.logger.Error("Error notifying successor about us", zap.Object("successor", succ.Identity()), zap.Error(err))
 		}
